@@ -179,7 +179,7 @@ func (c *c20) isolation(tape *kernel.Tape, n int) {
 	steps(c.o, tape, n, func(i int, ch *kernel.Chooser) string {
 		c.step = i
 		var desc string
-		switch ch.Int(17) {
+		switch ch.Int(19) {
 		case 14: // idempotent requests served concurrently answer exactly what they answer alone
 			tok := "no-token"
 			if sess != nil && sess.tokens != nil {
@@ -383,6 +383,27 @@ func (c *c20) isolation(tape *kernel.Tape, n int) {
 		case 7:
 			_, err := rs.NewResourceServerClientCredentials(ctx, w.Issuer, "web", "secret-web", rs.WithClient(hc))
 			desc = fmt.Sprintf("rs.NewResourceServerClientCredentials (%v)", err)
+		case 17: // the client side of the device grant on the caller's http.Client: start, the user approves, poll
+			resp, err := rp.DeviceAuthorization(ctx, []string{"openid"}, party, nil)
+			desc = fmt.Sprintf("rp.DeviceAuthorization (%v)", err)
+			if err == nil && resp != nil {
+				if ch.Bool(2, 3) {
+					w.Store.ApproveDevice(resp.DeviceCode, "u1")
+				}
+				pctx, cancel := context.WithTimeout(ctx, 20*time.Second)
+				_, perr := rp.DeviceAccessToken(pctx, resp.DeviceCode, time.Duration(1+ch.Int(3))*time.Second, party)
+				cancel()
+				c.o.Probe("client-side-device-flows")
+				desc += fmt.Sprintf(", rp.DeviceAccessToken (%v)", perr != nil)
+			}
+		case 18: // further calls through the same relying party and client
+			if sess != nil && sess.tokens != nil && sess.tokens.RefreshToken != "" {
+				_, err := rp.RefreshTokens[*oidc.IDTokenClaims](ctx, party, sess.tokens.RefreshToken, "", "")
+				desc = fmt.Sprintf("rp.RefreshTokens (%v)", err != nil)
+			} else {
+				_, err := rp.ClientCredentials(ctx, party, nil)
+				desc = fmt.Sprintf("rp.ClientCredentials (%v)", err != nil)
+			}
 		case 8, 15, 16: // sibling client-side instances: same client id and issuer, each configured with its own credentials
 			desc = c.siblings(ch, hc)
 		default:
